@@ -69,7 +69,7 @@ Definition check_step (st : state) (s : cstep) : bool * state :=
       let ok :=
         step_ok st l &&
         match cs_obs s, l with
-        | XQ q, (LCommit _ | LRestore _) => check_q st' q
+        | XQ q, (LCommit _ | LRestore _ _) => check_q st' q
         | XPub did, LPublish => match o with OPub d => Bool.eqb d did | _ => false end
         | XSub err reqidx, LSubscribe c _ _ _ _ =>
             N.eqb (sub_idx st c) reqidx &&
